@@ -57,9 +57,9 @@ binnify_sym, binnify_real = both(binnify_body)
 
 def _binnify_cases(tier):
     out = []
-    for b in ((1, 2, 3) if tier == "quick" else (1, 2, 3, 4, 5, 7, 8)):
-        for nch in ((1, 2) if tier == "quick" else (1, 2, 3)):
-            out.append(dict(b=b, nchroms=nch, maxbins=3 if tier == "quick" else (4 if nch < 3 else 3)))
+    for b in ((1, 2, 3) if tier == "quick" else (1, 2, 3, 4, 5, 7, 8, 10, 16, 100, 1000)):
+        for nch in ((1, 2) if tier == "quick" else (1, 2, 3, 4)):
+            out.append(dict(b=b, nchroms=nch, maxbins=3 if tier == "quick" else (5 if nch < 3 else 3)))
     return out
 
 
@@ -96,7 +96,7 @@ binsize_sym, binsize_real = both(binsize_body)
 def _binsize_cases(tier):
     if tier == "quick":
         return [dict(layout=list(l), wmax=3) for l in layouts(2, 4)]
-    return [dict(layout=list(l), wmax=4) for l in layouts(3, 5)]
+    return [dict(layout=list(l), wmax=5 if sum(l) <= 4 else 4) for l in layouts(3, 6) if not (len(l) == 3 and sum(l) > 5)]
 
 
 # ---------------------------------------------------------------------------
@@ -126,11 +126,11 @@ chromsizes_sym, chromsizes_real = both(chromsizes_body)
 CHECKS = [
     Check("binnify", _binnify_cases, binnify_sym, binnify_real, labels=("multiple_of_width", "shorter_than_width"),
           doc="util.binnify on symbolic chromosome lengths; width concrete per case (division by a constant)",
-          bounds=dict(quick="width 1..3, 1-2 chromosomes, <=3 bins each", thorough="width 1..8, 1-3 chromosomes, <=4 bins each"),
+          bounds=dict(quick="width 1..3, 1-2 chromosomes, <=3 bins each", thorough="widths up to 1000, 1-4 chromosomes, <=5 bins each"),
           stubs=("E2 int/int true division then ceil: exact rational",)),
     Check("get_binsize", _binsize_cases, binsize_sym, binsize_real, labels=("long_last_bin", "reports_size"),
           doc="util.get_binsize on every valid bin table of each layout with symbolic widths",
-          bounds=dict(quick="<=2 chromosomes, <=4 bins, widths 1..3", thorough="<=3 chromosomes, <=5 bins, widths 1..4")),
+          bounds=dict(quick="<=2 chromosomes, <=4 bins, widths 1..3", thorough="<=3 chromosomes, <=6 bins, widths 1..4/5")),
     Check("get_chromsizes", _binsize_cases, chromsizes_sym, chromsizes_real,
           doc="util.get_chromsizes == end of last bin per chromosome", bounds=dict(quick="as get_binsize")),
 ]
